@@ -132,6 +132,14 @@ class GatherVal:
     items: List[Any]
 
 
+@dataclass
+class Ready:
+    """An awaitable supplied by a rule's stub: awaiting it yields `value` (or raises `exc`)."""
+
+    value: Any = None
+    exc: Any = None
+
+
 class PyRaise(Exception):
     """An exception raised by the interpreted code."""
 
